@@ -92,7 +92,11 @@ theorem C02_plain_levenshtein (r h : List α) :
       ∧ ∀ s', Aligns s' r h → numEdits s ≤ numEdits s' :=
   lev_unit_eq_numEdits r h
 
-/-- **Normalisation and the empty-reference conventions**, scalar and per-prefix form. -/
+/-- **Normalisation and the empty-reference conventions**, scalar and per-prefix form.
+DEFINITIONAL (audit): `normScalar` / `normPrefix` are model functions and this is their definition read out case
+by case; it says nothing about the code by itself and is NOT counted as an obligation. It is kept because
+`C02_scalar`, `C02_equal_costs` and `C02_prefix` are stated in terms of these two functions: this is how to read
+them (divide by `|ref'|`; empty reference: 0 for an empty hypothesis / prefix, 1 otherwise). -/
 theorem C02_norm_conventions (rl hl k : Nat) (v : Rat) :
     normScalar false rl hl v = v ∧ normPrefix false rl k v = v
     ∧ (0 < rl → normScalar true rl hl v = v / (rl : Rat) ∧ normPrefix true rl k v = v / (rl : Rat))
@@ -241,7 +245,8 @@ theorem C02_mer_ref2 (bf : Bool) (N M : Nat) (ref2 : List (List α)) (dflt : α)
       have hn' : n < row.length := by rw [h2 row hrow]; exact hn
       simp [List.getD_eq_getElem?_getD, List.getElem?_eq_getElem hn', hm]
 
-/-- The reductions. -/
+/-- The reductions. DEFINITIONAL (audit): `rfl` three times — `reduce` is written like this; kept for
+documentation, NOT counted as an obligation. That the code reduces this way is correspondence-only. -/
 theorem C02_mer_reduce (l : List (List Rat)) :
     reduce .none l = .inl l ∧ reduce .sum l = .inr l.flatten.sum
       ∧ reduce .mean l = .inr (l.flatten.sum / (l.flatten.length : Rat)) :=
@@ -323,7 +328,12 @@ theorem C02_batch_independent (cfg : Config α) (bf bf' : Bool) (N N' : Nat)
     errorRateBatch_getElem? cfg bf' N' ref' hyp' d hr' hh' n' hn', er, eh]
 
 /-- **`batch_first` is a transposition**: the batch-first call on the transposed tensors gives
-the sequence-first result, and `transpose` is the index swap `t'[n][l] = t[l][n]`. -/
+the sequence-first result, and `transpose` is the index swap `t'[n][l] = t[l][n]`.
+(Audit: the first conjunct is `rfl` — the batch model reads a sequence-first tensor through `transpose`; the
+content is the second conjunct. The batch model `errorRateBatch` is per column BY CONSTRUCTION
+(`zipWith errorRateCol` over the columns): `C02_batch_*` / `C02_prefix_batch*` establish the index bookkeeping of
+that wrapper (which row / column / table entry belongs to pair `n`), not that the code's vectorised operations
+keep the pairs apart — that is correspondence-only.) -/
 theorem C02_batch_first_transpose (cfg : Config α) (N : Nat) (ref hyp : List (List α)) (d : α) :
     errorRateBatch cfg true N (transpose N ref d) (transpose N hyp d) d
       = errorRateBatch cfg false N ref hyp d ∧
@@ -435,5 +445,72 @@ theorem C02_zero_costs_counterexample :
   constructor
   · decide +kernel
   · simp [lev, subCost, unitCosts]
+
+/-! ### Audit: every theorem above applied to ONE concrete non-trivial instance (all its hypotheses together)
+
+`audCfg`: eos `9` (not counted), no norm, costs (1, 1, 2) — `ins + del = sub`, so minimum-cost alignments with
+DIFFERENT edit counts exist and the tie-breaking of the code matters. Padded columns `ref = [0,5,9,3]`
+(garbage after the eos), `hyp = [1,5,9]`: transcripts `[0,5]` and `[1,5]`, optimal alignments make 1 edit
+(substitute) or 2 edits (delete + insert); the code reports 1. -/
+
+def audCfg : Config Int := ⟨some 9, false, false, ⟨1, 1, 2⟩, false, -100⟩
+
+example : cut audCfg.eos audCfg.includeEos [0, 5, 9, 3] = [0, 5] ∧ cut audCfg.eos audCfg.includeEos [1, 5, 9] = [1, 5] := by
+  decide
+-- the fewest / most edits among minimum-cost alignments really differ here …
+example : optCounts audCfg.costs [0, 5] [1, 5] = (2, [1, 2]) := by decide +kernel
+-- … and the model reports the lower one (substitution wins the tie against insertion)
+example : errorRateCol audCfg [0, 5, 9, 3] [1, 5, 9] = 1 := by decide +kernel
+-- C02_realised: row 2 (the last live row; row 3 is frozen), cell 2 — and the table itself
+example := C02_realised audCfg.costs [(0 : Int), 5, 9, 3] [1, 5, 9] 2 false 3 2 (by decide) (by decide)
+example : rowsP ⟨1, 1, 2⟩ [(0 : Int), 5, 9, 3] [1, 5, 9] 2 false
+    = [[(0, 0), (1, 1), (2, 2), (3, 3), (4, 4)], [(1, 1), (2, 1), (3, 2), (4, 3), (5, 4)],
+       [(2, 2), (3, 2), (2, 1), (3, 2), (4, 3)], [(2, 2), (3, 2), (2, 1), (3, 2), (4, 3)]] := by decide +kernel
+-- C02_bounds_fast_oracle (hence C02_bounds_oracle, C02_bounds) with the TIGHT bounds lo = 1 < hi = 2
+example : (1 : Rat) ≤ errorRateCol audCfg [0, 5, 9, 3] [1, 5, 9] ∧ errorRateCol audCfg [0, 5, 9, 3] [1, 5, 9] ≤ (2 : Rat) := by
+  have h := C02_bounds_fast_oracle audCfg rfl [0, 5, 9, 3] [1, 5, 9] 1 2 (by decide +kernel) (by decide +kernel)
+  exact_mod_cast h
+-- the hypotheses of C02_bounds_oracle / C02_bounds for the same instance, obtained through the proved oracle
+theorem aud_minEdits : minEdits audCfg.costs (cut audCfg.eos audCfg.includeEos [0, 5, 9, 3])
+    (cut audCfg.eos audCfg.includeEos [1, 5, 9]) = some 1 := by
+  rw [← (C02_optCounts_min_max _ _ _).1]; decide +kernel
+theorem aud_maxEdits : maxEdits audCfg.costs (cut audCfg.eos audCfg.includeEos [0, 5, 9, 3])
+    (cut audCfg.eos audCfg.includeEos [1, 5, 9]) = some 2 := by
+  rw [← (C02_optCounts_min_max _ _ _).2]; decide +kernel
+example := C02_bounds_oracle audCfg rfl [0, 5, 9, 3] [1, 5, 9] 1 2 aud_minEdits aud_maxEdits
+-- C02_equal_costs: all three hypotheses together, costs (1/2, 1/2, 1/2), with norm and a counted eos
+example := C02_equal_costs (α := Int) ⟨some 0, true, true, ⟨1/2, 1/2, 1/2⟩, false, -100⟩ rfl rfl (by decide +kernel)
+  [1, 2, 0, 5] [2, 0, 0]
+-- C02_prefix on the instance (with norm): live entries, then the padding
+example := (C02_prefix { audCfg with norm := true } [0, 5, 9, 3] [1, 5, 9]).2 2 (by decide)
+example : prefixErrorRatesCol { audCfg with norm := true } [0, 5, 9, 3] [1, 5, 9] = [1, 1, 1 / 2, -100] := by
+  decide +kernel
+example : prefixErrorRatesCol { audCfg with norm := true, excludeLast := true } [0, 5, 9, 3] [1, 5, 9] = [1, 1, -100] := by
+  decide +kernel
+-- C02_mer: N = 1, M = 2, sequence-first, sub_avg, all six hypotheses
+example := C02_mer (α := Int) ⟨none, false, true, ⟨1, 1, 2⟩, false, -100⟩ true false 1 2
+  [[[1, 1]], [[2, 2]]] [[[2, 1]], [[1, 3]]] [[1/4, 3/4]] 0
+  (by simp [WellShaped]) (by simp [WellShaped]) rfl (by simp) 0 1 (by decide) (by decide)
+-- … and batch-first (N = 2, M = 2)
+example := C02_mer (α := Int) ⟨none, false, true, ⟨1, 1, 2⟩, false, -100⟩ false true 2 2
+  [[[1, 2], [1, 2]], [[3, 4], [3, 4]]] [[[2, 1], [1, 3]], [[3, 4], [4, 4]]] [[1/4, 3/4], [1/2, 1/2]] 0
+  (by simp [WellShaped]) (by simp [WellShaped]) rfl (by simp) 1 1 (by decide) (by decide)
+-- C02_mer_ref2 in both layouts (the 2-D reference repeated per sample)
+example := C02_mer_ref2 (α := Int) true 2 2 [[1, 2], [3, 4]] 0 (by simp) 1 1 (by decide) (by decide)
+example := C02_mer_ref2 (α := Int) false 2 2 [[1, 2], [3, 4]] 0 (by simp) 1 1 (by decide) (by decide)
+-- C02_batch_columns / C02_batch_independent / C02_prefix_batch with batch_first (their hypotheses are
+-- conditional on it)
+example := C02_batch_columns audCfg true 2 [[0, 5, 9, 3], [3, 9, 9, 9]] [[1, 5, 9], [3, 9, 1]] 0 (fun _ => rfl) (fun _ => rfl)
+example := C02_batch_independent audCfg true false 2 1 [[0, 5, 9, 3], [3, 9, 9, 9]] [[1, 5, 9], [3, 9, 1]]
+  [[0], [5], [9], [3]] [[1], [5], [9]] 0 (fun _ => rfl) (fun _ => rfl) (fun h => by cases h) (fun h => by cases h)
+  0 0 (by decide) (by decide) (by decide) (by decide)
+example := C02_prefix_batch (α := Int) ⟨some 0, false, false, ⟨1, 1, 1⟩, true, -7⟩ true 2 [[1, 2], [3, 0]] [[2, 1], [3, 0]] 0
+  (fun _ => rfl) (fun _ => rfl) (fun _ => by simp [seqDim]) 1 1 (by decide) (by decide)
+example : prefixErrorRatesBatch (α := Int) ⟨some 0, false, false, ⟨1, 1, 1⟩, true, -7⟩ true 2
+    [[1, 2], [3, 0]] [[2, 1], [3, 0]] 0 = [[2, 1], [1, -7]] := by decide +kernel
+example := C02_prefix_batch_first_transpose (α := Int) ⟨some 0, false, false, ⟨1, 1, 1⟩, false, -7⟩ 2
+  [[1, 3], [2, 0]] [[2, 3], [1, 0]] 0 1 2 (by decide) (by decide)
+-- C02_pair_shapes: an accepted pair
+example : checkPairShapes true [2, 4] [2, 5] = some (2, 4, 5) := by decide
 
 end PdtVerif.ErrorRate
